@@ -29,7 +29,8 @@ pub enum Set {
     Reqi(u8),
     Tcp,
     UdpNone,
-    UdpSome,
+    /// udp with a local address: index into `udp_pairs()` (address families, ports whose bytes differ)
+    UdpSome(u8),
     Compressed,
     Uncompressed,
     Relay,
@@ -42,6 +43,19 @@ pub enum Set {
 const FLAG_BITS: [u16; 10] = [5, 2, 3, 4, 6, 7, 8, 9, 10, 11]; // mci local mso_cols nlp con obh hlv axm_load axm_edit req_join
 fn remote() -> SocketAddr { "127.0.0.1:29999".parse().unwrap() }
 fn local() -> SocketAddr { "127.0.0.1:30001".parse().unwrap() }
+/// (remote, local) pairs for `udp(remote, Some(local))`: the announced port is the local address's port
+/// whatever the two address families are (an IPv6 wildcard socket talks to IPv4 peers as well).
+fn udp_pairs() -> Vec<(SocketAddr, SocketAddr)> {
+    let p = |s: &str| -> SocketAddr { s.parse().unwrap() };
+    vec![
+        (remote(), local()),
+        (remote(), p("[::]:30002")),
+        (p("[::1]:29999"), p("[::1]:30003")),
+        (p("[::1]:29999"), p("0.0.0.0:513")),
+        (remote(), p("127.0.0.1:65535")),
+        (p("10.1.2.3:1"), p("192.168.0.9:256")),
+    ]
+}
 
 fn apply(b: Builder, s: &Set) -> Builder {
     match s {
@@ -65,7 +79,7 @@ fn apply(b: Builder, s: &Set) -> Builder {
         Set::Reqi(k) => b.isi_reqi(RequestId(*k)),
         Set::Tcp => b.tcp(remote()),
         Set::UdpNone => b.udp(remote(), None),
-        Set::UdpSome => b.udp(remote(), Some(local())),
+        Set::UdpSome(k) => { let (r, l) = udp_pairs()[*k as usize]; b.udp(r, Some(l)) },
         Set::Compressed => b.compressed(),
         Set::Uncompressed => b.uncompressed(),
         Set::Relay => b.relay(),
@@ -106,7 +120,7 @@ fn ref_apply(r: &mut Ref, s: &Set) {
         Set::Reqi(k) => r.reqi = *k,
         Set::Tcp => r.proto = 0,
         Set::UdpNone => { r.proto = 1; r.udp_local = None },
-        Set::UdpSome => { r.proto = 1; r.udp_local = Some(local()) },
+        Set::UdpSome(k) => { r.proto = 1; r.udp_local = Some(udp_pairs()[*k as usize].1) },
         Set::Relay => r.proto = 2,
         Set::Compressed | Set::Uncompressed | Set::Other(_) => {},
     }
@@ -139,7 +153,9 @@ fn alphabet(tier: Tier) -> Vec<Set> {
     for k in 0..2 { v.push(Set::IName(k)); }
     for k in 0..2 { v.push(Set::Admin(k)); }
     for k in [0u8, 1, 255] { v.push(Set::Reqi(k)); }
-    v.extend([Set::Tcp, Set::UdpNone, Set::UdpSome, Set::Compressed, Set::Uncompressed, Set::Relay]);
+    v.extend([Set::Tcp, Set::UdpNone, Set::Compressed, Set::Uncompressed, Set::Relay]);
+    // quick: same family, IPv6 wildcard towards IPv4, IPv4 local towards IPv6 with a port whose two bytes differ; thorough: all six
+    for k in 0..udp_pairs().len() as u8 { if tier == Tier::Thorough || [0, 1, 3].contains(&k) { v.push(Set::UdpSome(k)); } }
     v
 }
 
@@ -236,6 +252,24 @@ fn free_udp_addr() -> SocketAddr {
     let s = std::net::UdpSocket::bind("127.0.0.1:0").unwrap();
     s.local_addr().unwrap()
 }
+fn free_udp_addr_on(ip: &str) -> Result<SocketAddr, String> {
+    let s = std::net::UdpSocket::bind(format!("{ip}:0")).map_err(|e| e.to_string())?;
+    s.local_addr().map_err(|e| e.to_string())
+}
+/// Does this host carry a datagram from an IPv6 wildcard socket to an IPv4 loopback peer, and between
+/// two IPv6 loopback sockets?  (Asked of the operating system with plain std sockets, before the
+/// library is involved: where the answer is no, those connects are left out and the evidence says so.)
+fn v6_usable() -> (bool, bool) {
+    let try_pair = |from: &str, to: &str| -> bool {
+        let (Ok(a), Ok(b)) = (std::net::UdpSocket::bind(from), std::net::UdpSocket::bind(to)) else { return false };
+        let _ = b.set_read_timeout(Some(Duration::from_millis(500)));
+        let Ok(dst) = b.local_addr() else { return false };
+        if a.connect(dst).is_err() || a.send(b"probe").is_err() { return false; }
+        let mut buf = [0u8; 16];
+        matches!(b.recv(&mut buf), Ok(5))
+    };
+    (try_pair("[::]:0", "127.0.0.1:0"), try_pair("[::1]:0", "[::1]:0"))
+}
 
 fn connect_case(transport: u8, compressed: bool, tokio_impl: bool, sets: &[Set], mode_first: bool) -> Result<(Vec<Vec<u8>>, Vec<u8>), String> {
     // returns (what the peer received: tcp = [all bytes until EOF], udp = datagrams; expected frame)
@@ -272,7 +306,7 @@ fn connect_case(transport: u8, compressed: bool, tokio_impl: bool, sets: &[Set],
             }
         },
         _ => {
-            let peer = std::net::UdpSocket::bind("127.0.0.1:0").map_err(|e| e.to_string())?;
+            let peer = std::net::UdpSocket::bind(if transport == 4 { "[::1]:0" } else { "127.0.0.1:0" }).map_err(|e| e.to_string())?;
             peer.set_read_timeout(Some(Duration::from_secs(2))).unwrap();
             let mut want_isi;
             if transport == 1 {
@@ -283,7 +317,7 @@ fn connect_case(transport: u8, compressed: bool, tokio_impl: bool, sets: &[Set],
                 want_isi = r.isi();
                 want_isi.udpport = 0;
             } else {
-                let la = free_udp_addr();
+                let la = match transport { 2 => free_udp_addr(), 3 => free_udp_addr_on("[::]")?, _ => free_udp_addr_on("[::1]")? };
                 b = b.udp(peer.local_addr().unwrap(), Some(la));
                 let mut r = Builder::default();
                 for s in sets { r = apply(r, s); }
@@ -352,14 +386,16 @@ pub fn run(tier: Tier, replay: Option<String>) -> i32 {
     }
     // connect part
     let mut connects = 0u64;
-    for transport in 0..3u8 {
+    let (dual_stack, v6_loopback) = v6_usable();
+    for transport in 0..5u8 {
+        if (transport == 3 && !dual_stack) || (transport == 4 && !v6_loopback) { continue; }
         for compressed in [true, false] {
             for tokio_impl in [false, true] {
                 for (cname, sets) in isi_configs() {
                   for mode_first in [false, true] {
                     connects += 1;
                     acc.eval();
-                    let tname = ["tcp", "udp-without-local-address", "udp-with-local-address"][transport as usize];
+                    let tname = ["tcp", "udp-without-local-address", "udp-with-local-address", "udp-with-ipv6-wildcard-local-address-to-ipv4-peer", "udp-ipv6-loopback-both-ends"][transport as usize];
                     let label = format!("{tname} {} {} isi={cname} mode chosen {}", if compressed { "compressed" } else { "uncompressed" }, if tokio_impl { "connect_async" } else { "connect_blocking" }, if mode_first { "first" } else { "last" });
                     let replay = json!({"site": "connect", "case": label});
                     match guard(|| connect_case(transport, compressed, tokio_impl, &sets, mode_first)) {
@@ -430,7 +466,7 @@ pub fn run(tier: Tier, replay: Option<String>) -> i32 {
             }
         }
     }
-    acc.samples.push(json!({"history": ["Flag(0, true)", "UdpSome", "Tcp", "Reqi(255)"], "note": "udp_local_address survives a later tcp()"}));
+    acc.samples.push(json!({"history": ["Flag(0, true)", "UdpSome(0)", "Tcp", "Reqi(255)"], "note": "udp_local_address survives a later tcp()"}));
     let mut extra = serde_json::Map::new();
     let _ = extra.insert("states".into(), json!(states));
     let _ = extra.insert("transitions".into(), json!(transitions));
@@ -438,9 +474,11 @@ pub fn run(tier: Tier, replay: Option<String>) -> i32 {
     let _ = extra.insert("max_depth".into(), json!(depth));
     let _ = extra.insert("alphabet".into(), json!(alpha.len()));
     let _ = extra.insert("connect_cases".into(), json!(connects));
+    let _ = extra.insert("host_carries_ipv6_wildcard_to_ipv4".into(), json!(dual_stack));
+    let _ = extra.insert("host_carries_ipv6_loopback".into(), json!(v6_loopback));
     crate::report::finish(crate::report::Outcome {
         property: "C18".into(), tier, level: "model_checking", acc,
-        rule: format!("all builder states reachable with a {}-setter alphabet ({} flag helpers on/off, wholesale flags x4 (one with the unnamed bits set), prefix x2, interval x3, iname x2, admin x2, reqi x3, tcp, udp without/with local address, compressed, uncompressed, relay); every transition replays the setter history on a fresh Builder and compares isi() with a reference builder; plus 288 connects (tcp / udp without / with local address x mode x blocking/tokio x 12 ISI configurations incl. a builder that was a relay builder before and every option unrelated to the ISI x size mode chosen first / last); every subset of the 8 unrelated options on 3 base builders against loopback peers; plus names and passwords of every length 0..=40 and with multi-byte characters / carets at every offset 0..=20", alpha.len(), if tier == Tier::Thorough { 10 } else { 5 }),
+        rule: format!("all builder states reachable with a {}-setter alphabet ({} flag helpers on/off, wholesale flags x4 (one with the unnamed bits set), prefix x2, interval x3, iname x2, admin x2, reqi x3, tcp, udp without a local address and with 3 (quick) / 6 (thorough) (remote, local) address pairs across both address families, compressed, uncompressed, relay); every transition replays the setter history on a fresh Builder and compares isi() with a reference builder; plus {connects} connects (tcp / udp without / with local address - IPv4, IPv6 wildcard towards an IPv4 peer, IPv6 loopback where the host carries them - x mode x blocking/tokio x 12 ISI configurations incl. a builder that was a relay builder before and every option unrelated to the ISI x size mode chosen first / last); every subset of the 8 unrelated options on 3 base builders against loopback peers; plus names and passwords of every length 0..=40 and with multi-byte characters / carets at every offset 0..=20", alpha.len(), if tier == Tier::Thorough { 10 } else { 5 }),
         exhaustive: true, extra,
         assumptions: vec!["state key = Debug rendering of the real Builder + the reference ISI".into(), "UDP without a local address is expected to announce UDPPort 0 (LFS then replies to the source port)".into()],
         started,
